@@ -9,7 +9,29 @@ import (
 
 	"github.com/gdamore/tcell/v2"
 	"golang.org/x/sys/unix"
+
+	"verif/census"
 )
+
+// openPty opens a pseudo terminal of the given size and returns its master side and the
+// path of the slave.
+func openPty(cols, rows int) (*os.File, string, error) {
+	mfd, err := unix.Open("/dev/ptmx", unix.O_RDWR|unix.O_NOCTTY, 0)
+	if err != nil {
+		return nil, "", err
+	}
+	if err := unix.IoctlSetPointerInt(mfd, unix.TIOCSPTLCK, 0); err != nil {
+		unix.Close(mfd)
+		return nil, "", err
+	}
+	n, err := unix.IoctlGetInt(mfd, unix.TIOCGPTN)
+	if err != nil {
+		unix.Close(mfd)
+		return nil, "", err
+	}
+	_ = unix.IoctlSetWinsize(mfd, unix.TIOCSWINSZ, &unix.Winsize{Row: uint16(rows), Col: uint16(cols)})
+	return os.NewFile(uintptr(mfd), "ptmx"), fmt.Sprintf("/dev/pts/%d", n), nil
+}
 
 // c06pty: the real devTty on a pseudo terminal.  Suspend/Resume cycles and Fini
 // while window-size signals rain on the process and the size keeps changing.
@@ -77,8 +99,18 @@ func c06pty(sn c06scn) (res c06res) {
 		}
 	}()
 	defer atomic.StoreInt32(&stop, 1)
-	go func() { // drain events
-		for s.PollEvent() != nil {
+	var lastW, lastH int32
+	go func() { // drain events, remember the last size reported
+		for {
+			ev := s.PollEvent()
+			if ev == nil {
+				return
+			}
+			if rz, ok := ev.(*tcell.EventResize); ok {
+				w, h := rz.Size()
+				atomic.StoreInt32(&lastW, int32(w))
+				atomic.StoreInt32(&lastH, int32(h))
+			}
 		}
 	}()
 	call := func(name string, f func()) (string, string) {
@@ -110,6 +142,29 @@ func c06pty(sn c06scn) (res c06res) {
 		}
 		_, _ = master.Write([]byte("k"))
 		s.Show()
+	}
+	// after the last Resume the window changes once more: the resize must still be reported
+	atomic.StoreInt32(&stop, 1)
+	time.Sleep(5 * time.Millisecond)
+	_ = unix.IoctlSetWinsize(mfd, unix.TIOCSWINSZ, &unix.Winsize{Row: 19, Col: 77})
+	seen := false
+	for i := 0; i < 750 && !seen; i++ {
+		_ = syscall.Kill(os.Getpid(), syscall.SIGWINCH)
+		time.Sleep(20 * time.Millisecond)
+		seen = atomic.LoadInt32(&lastW) == 77 && atomic.LoadInt32(&lastH) == 19
+	}
+	if !seen {
+		lib := census.Library(census.Dump())
+		parked := len(lib) > 0
+		for _, g := range lib {
+			if !census.Blocking(g.State) {
+				parked = false
+			}
+		}
+		if parked {
+			return fail("after-resume:no-resize@pty", fmt.Sprintf("real devTty on a pty: after %d Suspend/Resume cycles the window was set to 77x19 and SIGWINCH delivered 750 times over 15 s: no EventResize with that size arrived (last size reported %dx%d) and the library's loops are parked", cycles, atomic.LoadInt32(&lastW), atomic.LoadInt32(&lastH)))
+		}
+		return incon("resize after Resume on the pty: watchdog")
 	}
 	if c, w := call("Fini", func() { s.Fini() }); c != "" {
 		if c == "inconclusive" {
